@@ -45,7 +45,7 @@ def main():
         "setup_cmd": "./setup.sh",
         "hooks": {
             "guard": "verif",
-            "enable": "go build -tags verif (the harness is always built with the tag; only reassembler.go has yield points)",
+            "enable": "go build -tags verif (the harness is always built with the tag; reassembler.go has yield points, aucoalesce has a read accessor for the built-in normalisation tables)",
             "baseline_off_cmd": "cd /repo && GOFLAGS=-mod=mod GOPROXY=off GOSUMDB=off GOTOOLCHAIN=local go test -vet=off -count=1 ./...",
             "source_commits": HOOK_COMMITS,
             "add_only": True,
